@@ -41,14 +41,40 @@ def run_cvc5(smt2, timeout_s):
             pass
 
 
-def check_goal(hyps, goal, timeout_ms, use_cvc5=True, want_model=True):
-    """Returns (verdict, backend, model_or_None, seconds); verdict in proved / refuted / unknown."""
-    t0 = time.time()
+def _mk(hyps, goal, timeout_ms, ematch):
     s = z3.Solver()
-    s.set('timeout', timeout_ms)
+    s.set('timeout', int(timeout_ms))
+    if ematch:
+        s.set('smt.mbqi', False)
+        s.set('auto_config', False)
     for h in hyps:
         s.add(h)
     s.add(z3.Not(goal))
+    return s
+
+
+def has_quant(hyps, goal):
+    seen = set()
+
+    def walk(e):
+        if e.get_id() in seen:
+            return False
+        seen.add(e.get_id())
+        if z3.is_quantifier(e):
+            return True
+        return any(walk(c) for c in e.children())
+    return any(walk(h) for h in list(hyps) + [goal])
+
+
+def check_goal(hyps, goal, timeout_ms, use_cvc5=True, want_model=True):
+    """Returns (verdict, backend, model_or_None, seconds); verdict in proved / refuted / unknown."""
+    t0 = time.time()
+    quant = has_quant(hyps, goal)
+    if quant:
+        s1 = _mk(hyps, goal, max(1000, timeout_ms // 3), True)
+        if s1.check() == z3.unsat:
+            return 'proved', 'z3-ematch', None, time.time() - t0
+    s = _mk(hyps, goal, timeout_ms, False)
     r = s.check()
     if r == z3.unsat:
         return 'proved', 'z3', None, time.time() - t0
@@ -60,16 +86,6 @@ def check_goal(hyps, goal, timeout_ms, use_cvc5=True, want_model=True):
             except Exception:
                 m = None
         return 'refuted', 'z3', m, time.time() - t0
-    # second strategy: different tactic configuration
-    s2 = z3.Solver()
-    s2.set('timeout', timeout_ms)
-    s2.set('smt.mbqi', False)
-    for h in hyps:
-        s2.add(h)
-    s2.add(z3.Not(goal))
-    r2 = s2.check()
-    if r2 == z3.unsat:
-        return 'proved', 'z3-ematch', None, time.time() - t0
     if use_cvc5:
         try:
             smt2 = s.to_smt2().replace('(check-sat)', '')
